@@ -35,8 +35,8 @@ theorem stat_never_dangling (cfg : Cfg) (hosts : Nat) (ops : List Op) :
 /-- The invariant also survives arbitrary (forged) inbound packets and arbitrary fd arguments at the
     kernel boundary. -/
 theorem index_kernel_ops (cfg : Cfg) (k : Kernel) (h : IdxInv k) (p : Packet) (fd : Nat) :
-    IdxInv (Kernel.deliver cfg k p) ∧ IdxInv (k.close fd) ∧ IdxInv (k.egress cfg).1 :=
-  ⟨h.deliver cfg p, h.close fd, h.egress cfg⟩
+    IdxInv (Kernel.deliver cfg k p) ∧ IdxInv (k.close cfg.fixListenerFamily fd) ∧ IdxInv (k.egress cfg).1 :=
+  ⟨h.deliver cfg p, h.close _ fd, h.egress cfg⟩
 
 example : ∃ ops : List Op, ∃ k ∈ ((Sys.init {} 2).exec ops).kernels, k.connections.length = 1 ∧ k.bindings.length = 1 :=
   ⟨[.listen 1 0 ⟨.host 1 false, 9000⟩, .connect 0 0 0 ⟨.host 1 false, 9000⟩, .egress, .deliver 0], by decide⟩
@@ -110,15 +110,15 @@ theorem reap_closed_complete (k : Kernel) : ∀ e ∈ k.reapClosed.sockets, Kern
     reaped at once iff the connection is already aborted, terminal or still handshaking, or has
     unread bytes (then an RST goes out); otherwise the entry lingers with `fd_closed` set and a FIN
     queued. -/
-theorem close_decision (k : Kernel) (fd : Nat) (s : Socket) (t : Tcb)
+theorem close_decision (k : Kernel) (fam : Bool) (fd : Nat) (s : Socket) (t : Tcb)
     (hs : k.getSock fd = some s) (hd : s.dgram = false) (ht : s.tcb = some t) :
     let live := !t.reset && !t.timedOut && t.state != .closed && t.state != .synSent && t.state != .synReceived
-    (live = false → k.onClose fd = (k, true)) ∧
-    (live = true → t.recvBuf ≠ [] → (k.onClose fd).2 = true ∧
-        (k.onClose fd).1.outbound = k.outbound ++ [{ src := (Kernel.boundEndpoint s).ip, dst := t.peer.ip,
-                                                      seg := Kernel.rstAckSeg t (Kernel.boundEndpoint s) }]) ∧
-    (live = true → t.recvBuf = [] → (k.onClose fd).2 = false ∧
-        (k.onClose fd).1 = k.setSock fd { s with fdClosed := true, tcb := some t.queueFin }) := by
+    (live = false → k.onClose fam fd = (k, true)) ∧
+    (live = true → t.recvBuf ≠ [] → (k.onClose fam fd).2 = true ∧
+        (k.onClose fam fd).1.outbound =
+          k.outbound ++ [{ src := (Kernel.boundEndpoint s).ip, dst := t.peer.ip, seg := Kernel.rstAckSeg t (Kernel.boundEndpoint s) }]) ∧
+    (live = true → t.recvBuf = [] → (k.onClose fam fd).2 = false ∧
+        (k.onClose fam fd).1 = k.setSock fd { s with fdClosed := true, tcb := some t.queueFin }) := by
   intro live
   refine ⟨?_, ?_, ?_⟩
   · intro hl
@@ -170,8 +170,8 @@ theorem accept_once (cfg : Cfg) (hosts : Nat) (ops : List Op) :
 
 /-- Also for arbitrary (forged) packets and fd arguments at the kernel boundary. -/
 theorem accept_once_kernel_ops (cfg : Cfg) (k : Kernel) (h : AccInv k) (p : Packet) (fd : Nat) :
-    (Kernel.deliver cfg k p).acceptLog.Nodup ∧ (k.pollAccept fd).1.acceptLog.Nodup ∧ (k.close fd).acceptLog.Nodup :=
-  ⟨(h.deliver cfg p).acceptLog_nodup, (h.pollAccept fd).acceptLog_nodup, (h.close fd).acceptLog_nodup⟩
+    (Kernel.deliver cfg k p).acceptLog.Nodup ∧ (k.pollAccept fd).1.acceptLog.Nodup ∧ (k.close cfg.fixListenerFamily fd).acceptLog.Nodup :=
+  ⟨(h.deliver cfg p).acceptLog_nodup, (h.pollAccept fd).acceptLog_nodup, (h.close _ fd).acceptLog_nodup⟩
 
 set_option maxRecDepth 100000 in
 /-- Non-vacuity: two clients, both handshakes complete, two accepts hand out two different fds. -/
@@ -633,6 +633,155 @@ theorem fixed_F_C13_3 :
     Spec.c13Check { cfgSmallWindow with fixRstAfterClose := true }
       (Spec.modelHistory { cfgSmallWindow with fixRstAfterClose := true } 2 fixed_dataAfterClose) = none := by
   decide
+
+/-- The F-C13-4 history on the tree with the persist probe (4e44fd9): `recv_buf_cap = 2`, a 3-byte
+    write fills the window, the client drops (`FIN_WAIT1`, one byte and the FIN behind a zero window),
+    the server drops with unread bytes (one RST, entry removed), and from then on every packet — that
+    RST and each of the client's zero-window probes — is lost, for 80 rounds. -/
+def blackhole_committed10 : List Op :=
+    [.listen 1 0 ⟨.host 1 false, 9000⟩, .connect 0 0 0 ⟨.host 1 false, 9000⟩, .egress, .deliver 0, .egress,
+    .deliver 1, .deliver 2, .cpoll 0 0, .egress, .deliver 3, .deliver 4, .accept 0 1, .write 0 [1, 2, 3],
+    .egress, .deliver 5, .deliver 6, .egress, .deliver 7, .sdrop 0, .egress, .sdrop 1, .egress, .drop 8,
+    .drop 9, .ldrop 0, .egress, .egress, .drop 10, .egress, .egress, .drop 11, .egress, .egress, .drop 12,
+    .egress, .egress, .drop 13, .egress, .egress, .drop 14, .egress, .egress, .drop 15, .egress, .egress,
+    .drop 16, .egress, .egress, .drop 17, .egress, .egress, .drop 18, .egress, .egress, .drop 19, .egress,
+    .egress, .drop 20, .egress, .egress, .drop 21, .egress, .egress, .drop 22, .egress, .egress, .drop 23,
+    .egress, .egress, .drop 24, .egress, .egress, .drop 25, .egress, .egress, .drop 26, .egress, .egress,
+    .drop 27, .egress, .egress, .drop 28, .egress, .egress, .drop 29, .egress, .egress, .drop 30, .egress,
+    .egress, .drop 31, .egress, .egress, .drop 32, .egress, .egress, .drop 33, .egress, .egress, .drop 34,
+    .egress, .egress, .drop 35, .egress, .egress, .drop 36, .egress, .egress, .drop 37, .egress, .egress,
+    .drop 38, .egress, .egress, .drop 39, .egress, .egress, .drop 40, .egress, .egress, .drop 41, .egress,
+    .egress, .drop 42, .egress, .egress, .drop 43, .egress, .egress, .drop 44, .egress, .egress, .drop 45,
+    .egress, .egress, .drop 46, .egress, .egress, .drop 47, .egress, .egress, .drop 48, .egress, .egress,
+    .drop 49, .stat]
+
+/-- The same application calls on the committed tree, every packet lost from the same point on. -/
+def fixed_blackhole : List Op :=
+    [.listen 1 0 ⟨.host 1 false, 9000⟩, .connect 0 0 0 ⟨.host 1 false, 9000⟩, .egress, .deliver 0, .egress,
+    .deliver 1, .deliver 2, .cpoll 0 0, .egress, .deliver 3, .deliver 4, .accept 0 1, .write 0 [1, 2, 3],
+    .egress, .deliver 5, .deliver 6, .egress, .deliver 7, .sdrop 0, .egress, .sdrop 1, .egress, .drop 8,
+    .drop 9, .ldrop 0, .egress, .egress, .egress, .egress, .egress, .egress, .egress, .egress, .egress,
+    .egress, .egress, .egress, .egress, .egress, .egress, .egress, .egress, .egress, .egress, .egress,
+    .egress, .egress, .egress, .egress, .egress, .egress, .egress, .egress, .egress, .egress, .egress,
+    .egress, .egress, .egress, .egress, .egress, .egress, .egress, .egress, .egress, .egress, .egress,
+    .egress, .egress, .egress, .egress, .egress, .egress, .egress, .egress, .egress, .egress, .egress,
+    .egress, .egress, .egress, .egress, .egress, .egress, .egress, .egress, .egress, .egress, .egress,
+    .egress, .egress, .egress, .egress, .egress, .egress, .egress, .egress, .egress, .egress, .egress,
+    .egress, .egress, .egress, .egress, .egress, .stat]
+
+def cfgBlackhole (c : Cfg) : Cfg := { c with recvCap := 2, retxThreshold := 2, retxMax := 1 }
+
+set_option maxRecDepth 100000 in
+/-- F-C13-4, found while classifying the table entries for the reclamation bound: the case "zero
+    window with something pending ⇒ the probes contradict silence" only covers the `quiet` disjunct of
+    the oracle. An application-closed socket that persists (unsent data or FIN behind `snd_wnd = 0`)
+    and whose probes are never answered — the peer is gone and nothing it sends arrives — probes for
+    ever: its table, binding and connection entries are still there `6 · reclaimBound` rounds after
+    the last handle was closed. On the tree with the ten earlier repairs. -/
+theorem witness_F_C13_4_committed10 : ¬ C13_Reclaim_Statement (cfgBlackhole Cfg.committed10) := by
+  intro h
+  exact absurd (h blackhole_committed10) (by decide)
+
+set_option maxRecDepth 100000 in
+/-- With the repair (`fixPersistBudget`: a probe that is due after `retx_max` unanswered probes
+    aborts the connection with `TimedOut` instead; any segment with the ACK flag resets the count, so
+    a reader that is merely slow — it answers every probe — is never aborted) the same calls reclaim
+    everything on the committed tree. -/
+theorem fixed_F_C13_4 :
+    Spec.c13Check (cfgBlackhole Cfg.committed) (Spec.modelHistory (cfgBlackhole Cfg.committed) 2 fixed_blackhole) = none ∧
+    ((Sys.init (cfgBlackhole Cfg.committed) 2).run fixed_blackhole).2.getLast? =
+      some [Obs.cnt 0 0 0 0 0 0, Obs.cnt 1 0 0 0 0 0] := by
+  refine ⟨by decide, by decide⟩
+
+/-- The probe budget, for every TCB: a heard peer resets the count and touches nothing else
+    `handle_established` reads; the count only grows by the probes sent; so `retx_max` is reached
+    exactly by `retx_max` probes in a row without any ACK-flagged segment in between. -/
+theorem persist_budget_facts (cfg : Cfg) (hb : cfg.fixPersistBudget = true) (t : Tcb) (s : Seg) :
+    (s.flags.ack = true → (t.heard cfg s).persistProbes = 0) ∧
+    (s.flags.ack = false → t.heard cfg s = t) ∧
+    (t.heard cfg s).state = t.state ∧ (t.heard cfg s).sendBuf = t.sendBuf ∧ (t.heard cfg s).recvBuf = t.recvBuf ∧
+    (t.heard cfg s).sndUna = t.sndUna ∧ (t.heard cfg s).sndNxt = t.sndNxt ∧ (t.heard cfg s).sndWnd = t.sndWnd ∧
+    (t.probeSent true).persistProbes = t.persistProbes + 1 := by
+  unfold Tcb.heard
+  rw [hb]
+  refine ⟨?_, ?_, ?_, ?_, ?_, ?_, ?_, ?_, rfl⟩
+  · intro h; simp [h]
+  · intro h; simp [h]
+  all_goals (split <;> rfl)
+
+/-! ## F-C13-5: a wildcard listener's close and the other address family -/
+
+/-- `0.0.0.0:9000` and `[::]:9000` both listen on host 1; a v4 client's SYN creates a half-open child
+    of the v4 listener; the **v6** listener is closed; the SYN-ACK / RST are delivered; the client polls. -/
+def dualFamilyClose : List Op :=
+    [.listen 1 0 ⟨.any false, 9000⟩, .listen 1 1 ⟨.any true, 9000⟩, .connect 0 0 0 ⟨.host 1 false, 9000⟩,
+    .egress, .deliver 0, .ldrop 1, .egress, .deliver 1, .deliver 2, .egress, .deliver 3, .cpoll 0 0, .accept 0 1]
+
+/-- The same calls on the committed tree (no RST is emitted, so the packet ids differ). -/
+def fixed_dualFamilyClose : List Op :=
+    [.listen 1 0 ⟨.any false, 9000⟩, .listen 1 1 ⟨.any true, 9000⟩, .connect 0 0 0 ⟨.host 1 false, 9000⟩,
+    .egress, .deliver 0, .ldrop 1, .egress, .deliver 1, .egress, .deliver 2, .cpoll 0 0, .accept 0 1]
+
+set_option maxRecDepth 100000 in
+/-- F-C13-5, found while classifying the never-accepted children for the reclamation bound
+    ("removed by the listener's close" — *which* listener's?): closing a wildcard listener resets every
+    `SynReceived` child on its port, whatever its address family. With `0.0.0.0:p` and `[::]:p` both
+    listening, closing the v6 listener kills the v4 listener's half-open child: the client's
+    `connect` reports `ConnectionRefused` although its listener is alive with an empty backlog, and
+    that listener's `accept` stays `Pending`. On the tree with the ten earlier repairs. -/
+theorem witness_F_C13_5_committed10 :
+    ((Sys.init Cfg.committed10 2).run dualFamilyClose).2.reverse.take 2 = [[Obs.pending], [Obs.err .refused]] := by
+  decide
+
+set_option maxRecDepth 100000 in
+/-- With the repair (`fixListenerFamily`: a closing listener only collects half-open children of its
+    own address family) the same calls end with the connect `Ok` and the accept handing out the
+    connection. -/
+theorem fixed_F_C13_5 :
+    ((Sys.init Cfg.committed 2).run fixed_dualFamilyClose).2.reverse.take 2 =
+      [[Obs.okConn ⟨.host 1 false, 9000⟩ ⟨.host 0 false, 49152⟩], [Obs.okConn ⟨.host 0 false, 49152⟩ ⟨.host 1 false, 9000⟩]] := by
+  decide
+
+/-! ## The statement itself: which histories it can be about -/
+
+/-- Slot discipline of the harness (every generator obeys it; the model's slot maps and the oracle's
+    ghost handle lists agree with the real handles only then): hosts are `0` and `1`, a listener /
+    connect / stream slot number is used for at most one handle in the whole history, and there are
+    no UDP sockets (the oracle's handle bookkeeping is about TCP handles; a UDP socket has no
+    `drop` op and stays in the table). -/
+def wfOps : List Op → List Nat → List Nat → List Nat → Bool
+  | [], _, _, _ => true
+  | .listen h l _ :: rest, ls, cs, ss => decide (h < 2) && !ls.contains l && wfOps rest (l :: ls) cs ss
+  | .connect h c s _ :: rest, ls, cs, ss =>
+    decide (h < 2) && !cs.contains c && !ss.contains s && wfOps rest ls (c :: cs) (s :: ss)
+  | .accept _ s :: rest, ls, cs, ss => !ss.contains s && wfOps rest ls cs (s :: ss)
+  | .udpBind _ _ _ :: _, _, _, _ => false
+  | .udpSend _ _ _ :: _, _, _, _ => false
+  | _ :: rest, ls, cs, ss => wfOps rest ls cs ss
+
+/-- The reclamation statement for the histories it is meant for. **Not proved.** What is proved
+    towards it: the index invariant and accept-once for all histories, the timers
+    (`silent_timer_exact`, `finWait2_timeout_candidates`), `reap_closed_complete` / `remove_clears`,
+    and the repaired witnesses; what is missing is the invariant that ties the oracle's ghost handle
+    lists to `fd_closed` in the kernels (every table entry is owned by a live handle, or is
+    application-closed, or is a never-accepted child of a live listener) and the frame lemmas for
+    `egress` over the other sockets of a host. -/
+def C13_Reclaim_Wf (cfg : Cfg) : Prop :=
+  ∀ ops : List Op, wfOps ops [] [] [] = true → Spec.c13Check cfg (Spec.modelHistory cfg 2 ops) = none
+
+set_option maxRecDepth 100000 in
+/-- The unrestricted `C13_Reclaim_Statement` is false on every variant for reasons that have nothing
+    to do with the crate — it quantifies over histories no harness can produce: a UDP socket (no
+    handle the oracle knows, no way to drop it) stays in the table, and a slot number used twice
+    makes the model keep a listener the real harness would have dropped. Hence `C13_Reclaim_Wf`. -/
+theorem reclaim_statement_needs_wf :
+    ¬ C13_Reclaim_Statement Cfg.committed ∧
+    Spec.c13Check Cfg.committed (Spec.modelHistory Cfg.committed 2
+      ([.listen 1 0 srv, .listen 1 0 ⟨.host 1 false, 9001⟩, .ldrop 0] ++ List.replicate 32 .egress ++ [.stat])) ≠ none := by
+  constructor
+  · intro h
+    exact absurd (h ([.udpBind 0 0 ⟨.host 0 false, 7000⟩] ++ List.replicate 32 .egress ++ [.stat])) (by decide)
+  · decide
 
 /-! ## The timer of the reclamation bound -/
 
